@@ -14,12 +14,12 @@ import (
 	"encoding/json"
 	"flag"
 	"fmt"
-	"io"
 	"go/ast"
 	"go/importer"
 	"go/parser"
 	"go/token"
 	"go/types"
+	"io"
 	"os"
 	"os/exec"
 	"path/filepath"
@@ -34,17 +34,18 @@ type edit struct {
 }
 
 type fileRewriter struct {
-	fset   *token.FileSet
-	src    []byte
-	file   *ast.File
-	rel    string
-	edits  []edit
-	usesMC bool
-	keep   map[string]bool // package idents whose import must stay used
-	opts   opts
-	errs   []string
-	skip   map[ast.Node]bool
-	info   *types.Info // nil when the package could not be type-checked
+	fset     *token.FileSet
+	src      []byte
+	file     *ast.File
+	rel      string
+	edits    []edit
+	usesMC   bool
+	keep     map[string]bool   // package idents whose import must stay used
+	keepReal map[ast.Node]bool // os.Stdin/os.Stdout uses that must stay the real file
+	opts     opts
+	errs     []string
+	skip     map[ast.Node]bool
+	info     *types.Info // nil when the package could not be type-checked
 }
 
 // isChan reports whether the expression's type is a channel (needs type information).
@@ -189,7 +190,18 @@ func (r *fileRewriter) rewrite() {
 				}
 			}
 			if r.opts.stdio {
-				if name, ok := isPkgSel(v, "os", "Stdin", "Stdout"); ok {
+				// os.Stdout.Fd(), .Stat(), .Name() ... are about the descriptor, not the
+				// stream: they keep the real file
+				if inner, ok := v.X.(*ast.SelectorExpr); ok {
+					if _, isStd := isPkgSel(inner, "os", "Stdin", "Stdout"); isStd {
+						switch v.Sel.Name {
+						case "Write", "Read", "WriteString":
+						default:
+							r.keepReal[inner] = true
+						}
+					}
+				}
+				if name, ok := isPkgSel(v, "os", "Stdin", "Stdout"); ok && !r.keepReal[v] {
 					r.usesMC = true
 					r.keep["os.Stdin"] = true
 					r.replace(v.Pos(), v.End(), "mcrt."+name)
@@ -504,7 +516,7 @@ func main() {
 			if ti, ok := info[path]; ok {
 				fset, f = ti.fset, ti.file
 			}
-			r := &fileRewriter{fset: fset, src: src, file: f, rel: filepath.Join(pk, name), keep: map[string]bool{}, skip: map[ast.Node]bool{}, info: infoOf(info, path),
+			r := &fileRewriter{fset: fset, src: src, file: f, rel: filepath.Join(pk, name), keep: map[string]bool{}, keepReal: map[ast.Node]bool{}, skip: map[ast.Node]bool{}, info: infoOf(info, path),
 				opts: opts{time: tm[pk], yield: ym[pk], stdio: sm[pk], dailysink: dm[pk]}}
 			r.rewrite()
 			if len(r.errs) > 0 {
